@@ -12,6 +12,7 @@ from pyasn1.codec.ber import eoo
 from pyasn1.compat.integer import to_bytes
 from pyasn1.compat.octets import (int2oct, oct2int, ints2octs, null,
                                   str2octs, isOctetsType)
+from pyasn1.type import base
 from pyasn1.type import char
 from pyasn1.type import tag
 from pyasn1.type import univ
@@ -20,6 +21,8 @@ from pyasn1.type import useful
 __all__ = ['Encoder', 'encode']
 
 LOG = debug.registerLoggee(__name__, flags=debug.DEBUG_ENCODER)
+
+noValue = base.noValue
 
 
 class AbstractItemEncoder(object):
@@ -539,9 +542,27 @@ class SequenceEncoder(AbstractItemEncoder):
 
             namedTypes = value.componentType
 
-            for idx, component in enumerate(value.values()):
+            if namedTypes:
+                # do not instantiate components that were never set: a
+                # placeholder of a type without mandatory components
+                # would pass for a value and get encoded
+                components = [
+                    value.getComponentByPosition(idx, instantiate=False)
+                    for idx in range(len(namedTypes))]
+
+            else:
+                components = value.values()
+
+            for idx, component in enumerate(components):
                 if namedTypes:
                     namedType = namedTypes[idx]
+
+                    if component is noValue:
+                        if namedType.isOptional or namedType.isDefaulted:
+                            continue
+
+                        # mandatory: take what the schema has to offer
+                        component = value.getComponentByPosition(idx)
 
                     if namedType.isOptional and not component.isValue:
                         if LOG:
